@@ -18,6 +18,9 @@ Section ExprInd.
   Hypothesis HNot : forall n e, P e -> P (ENot n e).
   Hypothesis HAnd : forall n a b, P a -> P b -> P (EAnd n a b).
   Hypothesis HOr : forall n a b, P a -> P b -> P (EOr n a b).
+  Hypothesis HAdd : forall n a b, P a -> P b -> P (EAdd n a b).
+  Hypothesis HCallId : forall n e, P e -> P (ECallId n e).
+  Hypothesis HCallInt : forall n e, P e -> P (ECallInt n e).
   Fixpoint expr_ind' (e : expr) : P e :=
     match e with
     | ELit n o => HLit n o
@@ -36,6 +39,9 @@ Section ExprInd.
     | ENot n e => HNot n e (expr_ind' e)
     | EAnd n a b => HAnd n a b (expr_ind' a) (expr_ind' b)
     | EOr n a b => HOr n a b (expr_ind' a) (expr_ind' b)
+    | EAdd n a b => HAdd n a b (expr_ind' a) (expr_ind' b)
+    | ECallId n e => HCallId n e (expr_ind' e)
+    | ECallInt n e => HCallInt n e (expr_ind' e)
     end.
 End ExprInd.
 
@@ -45,10 +51,10 @@ Fixpoint expr_okb (e : expr) : bool :=
   match e with
   | ELit _ _ | EName _ _ => true
   | ETuple _ es => forallb expr_okb es
-  | ESub _ e _ | EIsNone _ e | EIsInst _ e _ | ENot _ e => expr_okb e
+  | ESub _ e _ | EIsNone _ e | EIsInst _ e _ | ENot _ e | ECallId _ e | ECallInt _ e => expr_okb e
   | EEq _ e l => expr_okb e && lit_nonnum l
   | EIfExp _ c a b => expr_okb c && expr_okb a && expr_okb b
-  | EAnd _ a b | EOr _ a b => expr_okb a && expr_okb b
+  | EAnd _ a b | EOr _ a b | EAdd _ a b => expr_okb a && expr_okb b
   end.
 
 Fixpoint stmt_okb (s : stmt) : bool :=
@@ -264,6 +270,34 @@ Proof.
   - rewrite (IH Hm b eq_refl). apply orb_true_r.
 Qed.
 
+Lemma intlike1_num : forall v o, intlike1 v = true -> member o v = true -> exists z, num_of o = Some z.
+Proof.
+  intros v o Hi Hm. destruct v as [| k | c | vs | vs]; simpl in Hi; try discriminate.
+  - cbn [member] in Hm. apply obj_eqb_eq in Hm. subst k. destruct o; try discriminate; simpl; eauto.
+  - cbn [member] in Hm. unfold isinst in Hm. destruct c; try discriminate; destruct o; simpl in Hm; try discriminate; simpl; eauto.
+Qed.
+
+Lemma intlike_num : forall v o, intlike v = true -> member o v = true -> exists z, num_of o = Some z.
+Proof.
+  intros v o Hi Hm. unfold intlike in Hi. rewrite member_flat in Hm.
+  destruct (flat v) as [| v0 l] eqn:E; try discriminate.
+  apply existsb_exists in Hm as [w [Hin Hw]]. rewrite forallb_forall in Hi.
+  eapply intlike1_num; eauto.
+Qed.
+
+Lemma add_val_sound : forall va vb w oa ob x y,
+  add_val va vb = Some w -> member oa va = true -> member ob vb = true ->
+  num_of oa = Some x -> num_of ob = Some y -> member (OInt (x + y)) w = true.
+Proof.
+  intros va vb w oa ob x y Ha Hma Hmb Hx Hy. unfold add_val in Ha.
+  assert (Hgen : (if intlike va && intlike vb then Some (VTyped CInt) else None) = Some w -> member (OInt (x + y)) w = true).
+  { intros H. destruct (intlike va && intlike vb); inversion H; subst. reflexivity. }
+  destruct va as [| ka | ca | la | la]; try (apply Hgen; exact Ha).
+  destruct vb as [| kb | cb | lb | lb]; try (apply Hgen; exact Ha).
+  cbn [member] in Hma, Hmb. apply obj_eqb_eq in Hma. apply obj_eqb_eq in Hmb. subst ka kb.
+  rewrite Hx, Hy in Ha. inversion Ha; subst. cbn [member obj_eqb]. apply Z.eqb_refl.
+Qed.
+
 Definition expr_sound (e : expr) : Prop :=
   forall r s a v t res,
     expr_okb e = true -> env_ok r s -> infer s e = Some (a, v) -> eval r e = (t, res) ->
@@ -441,4 +475,39 @@ Proof.
         -- split; [apply tr_ok_app; eapply tr_ok_weaken; eauto; inc | intros ? Hr; discriminate].
     + inversion He; subst. destruct (IHe1 _ _ _ _ _ _ Hok1 Henv Ei1 Ee1) as [Ht1 _].
       split; [eapply tr_ok_weaken; eauto; inc | intros ? Hr; discriminate].
+  - (* a + b *)
+    cbn [infer eval expr_okb] in *. apply andb_true_iff in Hok as [Hok1 Hok2].
+    destruct (infer s e1) as [[aa va] |] eqn:Ei1; try discriminate.
+    destruct (infer s e2) as [[ab vb] |] eqn:Ei2; try discriminate.
+    destruct (add_val va vb) as [w |] eqn:Eadd; try discriminate.
+    inversion Hi; subst. clear Hi.
+    destruct (eval r e1) as [t1 [oa |]] eqn:Ee1.
+    + destruct (IHe1 _ _ _ _ _ _ Hok1 Henv Ei1 Ee1) as [Ht1 Hv1].
+      destruct (eval r e2) as [t2 [ob |]] eqn:Ee2.
+      * destruct (IHe2 _ _ _ _ _ _ Hok2 Henv Ei2 Ee2) as [Ht2 Hv2].
+        destruct (num_of oa) as [x |] eqn:Ex; [destruct (num_of ob) as [y |] eqn:Ey |]; inversion He; subst.
+        -- pose proof (add_val_sound _ _ _ _ _ _ _ Eadd (Hv1 _ eq_refl) (Hv2 _ eq_refl) Ex Ey) as Hm.
+           split.
+           ++ apply tr_ok_app; [apply tr_ok_app; eapply tr_ok_weaken; eauto; inc | eapply tr_ok_one; [apply in_or_app; right; left; reflexivity | exact Hm]].
+           ++ intros o Ho. inversion Ho; subst. exact Hm.
+        -- split; [apply tr_ok_app; eapply tr_ok_weaken; eauto; inc | intros ? Hr; discriminate].
+        -- split; [apply tr_ok_app; eapply tr_ok_weaken; eauto; inc | intros ? Hr; discriminate].
+      * destruct (IHe2 _ _ _ _ _ _ Hok2 Henv Ei2 Ee2) as [Ht2 _]. inversion He; subst.
+        split; [apply tr_ok_app; eapply tr_ok_weaken; eauto; inc | intros ? Hr; discriminate].
+    + inversion He; subst. destruct (IHe1 _ _ _ _ _ _ Hok1 Henv Ei1 Ee1) as [Ht1 _].
+      split; [eapply tr_ok_weaken; eauto; inc | intros ? Hr; discriminate].
+  - (* identity call *)
+    cbn [infer eval expr_okb] in *. destruct (infer s e) as [[a1 v1] |] eqn:Ei; try discriminate. inversion Hi; subst.
+    destruct (eval r e) as [t1 ro] eqn:Ee. destruct (IHe _ _ _ _ _ _ Hok Henv Ei Ee) as [Ht1 Hv1].
+    destruct ro as [o1 |]; inversion He; subst.
+    + split; [apply tr_ok_app; [eapply tr_ok_weaken; eauto; inc | eapply tr_ok_one; [apply in_or_app; right; left; reflexivity | exact (Hv1 _ eq_refl)]] | intros ? Hr; inversion Hr; subst; exact (Hv1 _ eq_refl)].
+    + split; [eapply tr_ok_weaken; eauto; inc | intros ? Hr; discriminate].
+  - (* call of an int -> int function *)
+    cbn [infer eval expr_okb] in *. destruct (infer s e) as [[a1 v1] |] eqn:Ei; try discriminate.
+    destruct (intlike v1) eqn:Eil; try discriminate. inversion Hi; subst.
+    destruct (eval r e) as [t1 ro] eqn:Ee. destruct (IHe _ _ _ _ _ _ Hok Henv Ei Ee) as [Ht1 Hv1].
+    destruct ro as [o1 |]; [destruct (num_of o1) as [x |] eqn:Ex |]; inversion He; subst.
+    + split; [apply tr_ok_app; [eapply tr_ok_weaken; eauto; inc | eapply tr_ok_one; [apply in_or_app; right; left; reflexivity | reflexivity]] | intros ? Hr; inversion Hr; reflexivity].
+    + split; [eapply tr_ok_weaken; eauto; inc | intros ? Hr; discriminate].
+    + split; [eapply tr_ok_weaken; eauto; inc | intros ? Hr; discriminate].
 Qed.
